@@ -51,7 +51,8 @@ impl UnitSet {
             .map(|(unit, p)| (unit.dimension(), p))
             .filter(|(dim, _p)| *dim != Dimension::None)
             .fold(BTreeMap::new(), |mut map, (dim, power)| {
-                *map.entry(dim).or_insert(0) += *power;
+                let sum: &mut i8 = map.entry(dim).or_insert(0);
+                *sum = add_power(*sum, *power);
                 map
             })
             .into_iter()
@@ -67,7 +68,8 @@ impl UnitSet {
             .map(|(unit, p)| (CssDimension::from(unit.dimension()), p))
             .filter(|(dim, _p)| *dim != CssDimension::None)
             .fold(BTreeMap::new(), |mut map, (dim, power)| {
-                *map.entry(dim).or_insert(0) += *power;
+                let sum: &mut i8 = map.entry(dim).or_insert(0);
+                *sum = add_power(*sum, *power);
                 map
             })
             .into_iter()
@@ -128,11 +130,11 @@ impl UnitSet {
                     {
                         if ap.abs() > bp.abs() {
                             factor *= f.powi((*bp).into());
-                            *ap += *bp;
+                            *ap = add_power(*ap, *bp);
                             *bp = 0;
                         } else {
                             factor /= f.powi((*ap).into());
-                            *bp += *ap;
+                            *bp = add_power(*bp, *ap);
                             *ap = 0;
                         }
                     }
@@ -151,11 +153,11 @@ impl Div for &UnitSet {
         'rhs: for (ru, rp) in &rhs.units {
             for (lu, lp) in &mut result.units {
                 if lu == ru {
-                    *lp -= rp;
+                    *lp = add_power(*lp, rp.saturating_neg());
                     continue 'rhs;
                 }
             }
-            result.units.push((ru.clone(), -rp));
+            result.units.push((ru.clone(), rp.saturating_neg()));
         }
         result.units.retain(|(_u, p)| *p != 0);
         result
@@ -168,7 +170,7 @@ impl Mul for &UnitSet {
         'rhs: for (ru, rp) in &rhs.units {
             for (lu, lp) in &mut result.units {
                 if lu == ru {
-                    *lp += rp;
+                    *lp = add_power(*lp, *rp);
                     continue 'rhs;
                 }
             }
@@ -245,6 +247,13 @@ impl Display for UnitSet {
         }
         Ok(())
     }
+}
+
+/// Add two unit exponents, saturating at +-127.
+///
+/// The range is kept symmetric so an exponent can always be negated.
+fn add_power(a: i8, b: i8) -> i8 {
+    a.saturating_add(b).max(-i8::MAX)
 }
 
 fn write_one(out: &mut fmt::Formatter, u: &Unit, p: i8) -> fmt::Result {
